@@ -58,7 +58,23 @@ FilledRel(o) ==
     \cup {<<x>> \o Fill(T - WireLen(o) - Len(x) - 1, f) : x \in BigLabels, T \in {253, 254, 255}, f \in BigFill}
 NeighbourRel(o) == FilledRel(o) \cup Rel06(A10)
 (* <<name, origin>> pairs, names relative and absolute *)
-NeighbourCases == UNION {{<<n, o>> : n \in NeighbourRel(o)} \cup {<<n \o o, o>> : n \in NeighbourRel(o)} : o \in Origins06}
+(* Mixed labels: the octet that gets stepped is NOT the last one.  Successor: a letter / neighbour
+   of the folding range followed by a run of 1, 2 or 62 maximal octets (the run is skipped, the
+   octet before it is incremented - with the folding rules - and the run is cut off); predecessor,
+   mirrored: such an octet followed by a run of minimal octets.  Each as a maximal (63-octet) label
+   a..a c ff..ff and as a short label c ff / c ff ff, alone (prefix_ok = FALSE cannot prefix, a
+   63-octet label cannot be extended) and filled up to a 255-octet name (nothing can be added). *)
+SuccEnds == {64, 90, 122, 91, 96, 123, 65, 89}                    \* @ Z z [ ` { A Y
+PredEnds == {91, 123, 97, 65, 64}                                 \* [ { a A @
+MixedLabels == {Rep(97, 62 - r) \o <<c>> \o Rep(255, r) : c \in SuccEnds, r \in {1, 2, 62}}
+               \cup {<<c>> \o Rep(255, r) : c \in SuccEnds, r \in {1, 2}}
+               \cup {Rep(97, 62 - r) \o <<c>> \o Rep(0, r) : c \in PredEnds, r \in {1, 2, 62}}
+               \cup {<<c>> \o Rep(0, r) : c \in PredEnds, r \in {1, 2}}
+MixedRel(o) == {<<x>> : x \in MixedLabels}
+               \cup {<<x>> \o Fill(255 - WireLen(o) - Len(x) - 1, f) : x \in MixedLabels, f \in BigFill}
+MixedCases == UNION {{<<n, o>> : n \in MixedRel(o)} \cup {<<n \o o, o>> : n \in MixedRel(o)} : o \in Origins06}
+NeighbourBase == UNION {{<<n, o>> : n \in NeighbourRel(o)} \cup {<<n \o o, o>> : n \in NeighbourRel(o)} : o \in Origins06}
+NeighbourCases == NeighbourBase \cup MixedCases
 
 -----------------------------------------------------------------------------
 (* C01 (a): octet classes that reach every branch of the escape and length code *)
